@@ -48,6 +48,17 @@ func (j *J) Both(x int) (int, error)      { atomic.AddInt64(&j.n, 1); return 7, 
 func (j *J) Nop()                         { atomic.AddInt64(&j.n, 1) }
 func (j *J) Str(s string) (string, error) { atomic.AddInt64(&j.n, 1); return s, nil }
 
+// Ticks returns a channel that delivers n values and is closed (ws only).
+func (j *J) Ticks(ctx context.Context, n int) (<-chan int, error) {
+	atomic.AddInt64(&j.n, 1)
+	ch := make(chan int, n)
+	for i := 0; i < n; i++ {
+		ch <- i
+	}
+	close(ch)
+	return ch, nil
+}
+
 type elem struct {
 	Raw    string
 	Kind   string
@@ -194,6 +205,9 @@ func (c09) Plan(tier string, seed int64) []core.Scenario {
 	for i := 0; i < nw; i++ {
 		out = append(out, core.Scenario{Kind: "ws", Seed: seed*217645177 + int64(i), N: map[string]int{"n": 60}, S: map[string]string{}})
 	}
+	for i := 0; i < 4; i++ {
+		out = append(out, core.Scenario{Kind: "ws-idreuse", Seed: seed*217645177 + 7000 + int64(i), N: map[string]int{"idkind": i % 2, "first": i / 2}, S: map[string]string{}})
+	}
 	return out
 }
 
@@ -321,6 +335,8 @@ func (p c09) Run(sc core.Scenario) core.Result {
 		p.batchExh(sc, r)
 	case "ws":
 		p.ws(sc, r)
+	case "ws-idreuse":
+		p.wsIDReuse(sc, r)
 	}
 	return r.Result()
 }
@@ -823,4 +839,82 @@ func (c09) ws(sc core.Scenario, r *core.R) {
 	r.Obs("ws_frames_sent", int64(sent))
 	r.Obs("ws_valid_id_frames", int64(len(wants)))
 	r.Sample(map[string]interface{}{"transport": "ws", "frames": sent, "valid_id_frames": len(wants), "id_null_error_frames": extra})
+}
+
+// wsIDReuse: one id is used again and again on a connection, each time after the previous request with
+// that id has been answered completely (for a channel-returning call: after its close notification).
+// Every request frame must get exactly one response frame with that id.
+func (c09) wsIDReuse(sc core.Scenario, r *core.R) {
+	s := newC09Srv()
+	ts := httptest.NewServer(s.rpc)
+	defer ts.Close()
+	conn, _, err := websocket.DefaultDialer.Dial("ws://"+ts.Listener.Addr().String(), http.Header{})
+	if err != nil {
+		r.Inconclusive("dial: %v", err)
+		return
+	}
+	defer conn.Close()
+	id := []string{`5`, `"again"`}[sc.I("idkind")]
+	steps := []struct{ method, params, expect string }{
+		{"J.Ticks", "[2]", "chan"}, {"J.Val", "[1]", "2"}, {"J.Err", "[1]", "error"}, {"J.Ticks", "[0]", "chan"}, {"J.Val", "[41]", "42"}, {"J.Nope", "[]", "error"}, {"J.Val", "[2]", "3"},
+	}
+	if sc.I("first") == 1 {
+		steps = append(steps[1:3], steps...)
+	}
+	for i, st := range steps {
+		req := fmt.Sprintf(`{"jsonrpc":"2.0","id":%s,"method":%q,"params":%s}`, id, st.method, st.params)
+		if err := conn.WriteMessage(websocket.TextMessage, []byte(req)); err != nil {
+			r.Inconclusive("write: %v", err)
+			return
+		}
+		r.Obs("ws_frames_sent", 1)
+		where := fmt.Sprintf("step %d of a connection that reuses id %s for every request (after the previous one completed): %s", i, id, req)
+		answered, closed := false, st.expect != "chan"
+		conn.SetReadDeadline(time.Now().Add(core.Grace))
+		for !answered || !closed {
+			_, msg, err := conn.ReadMessage()
+			if err != nil {
+				r.Violate("ws-response-count", "%s: got no response frame (answered=%v, stream closed=%v): %v", where, answered, closed, err)
+				return
+			}
+			var f struct {
+				ID     json.RawMessage `json:"id"`
+				Method string          `json:"method"`
+				Result json.RawMessage `json:"result"`
+				Error  json.RawMessage `json:"error"`
+			}
+			if json.Unmarshal(msg, &f) != nil {
+				r.Violate("malformed-response-object", "%s: frame %s", where, core.Trunc(string(msg), 120))
+				return
+			}
+			switch {
+			case f.Method == "xrpc.ch.close":
+				closed = true
+			case f.Method != "":
+			case normID(string(f.ID)) != normID(id):
+				r.Violate("ws-unexpected-response", "%s: response frame with id %s", where, string(f.ID))
+			case answered:
+				r.Violate("ws-response-count", "%s: second response frame %s", where, core.Trunc(string(msg), 120))
+			default:
+				answered = true
+				switch st.expect {
+				case "error":
+					if f.Error == nil {
+						r.Violate("wrong-outcome", "%s: expected an error response, got %s", where, core.Trunc(string(msg), 120))
+					}
+				case "chan":
+					if f.Error != nil || f.Result == nil {
+						r.Violate("wrong-outcome", "%s: expected a channel id, got %s", where, core.Trunc(string(msg), 120))
+						closed = true
+					}
+				default:
+					if string(f.Result) != st.expect {
+						r.Violate("wrong-outcome", "%s: expected result %s, got %s", where, st.expect, core.Trunc(string(msg), 120))
+					}
+				}
+			}
+		}
+	}
+	r.Key(fmt.Sprintf("ws-idreuse id=%s first=%d", id, sc.I("first")), true)
+	r.Sample(map[string]interface{}{"transport": "ws", "scenario": "one id reused by consecutive requests incl. channel-returning ones", "id": id, "requests": len(steps)})
 }
